@@ -405,8 +405,9 @@ func (muxerSlice) Gen(r *rand.Rand, _ int, tier string) ([]string, []string) {
 			default:
 				// VP9 / AV1 / H265: parameters travel with every key frame / sequence header and only there
 				pic = true
-				if t.codec == "vp9" && t.par > 3 {
-					t.par = 1 + t.par%3
+				// VP9: five parameter ids (three sizes in profile 0, then profile 2 at 10 and 12 bits)
+				if t.codec == "vp9" && t.par > 5 {
+					t.par = 1 + t.par%5
 				}
 				if t.codec != "vp9" && t.par > 2 {
 					t.par = 1 + t.par%2
